@@ -601,3 +601,6 @@ fn run_neg_case(case: &Val) -> Val {
 fn verif_neg_cases() {
     val::run_cases(run_neg_case);
 }
+
+// C10 / C11 glue harness (unit u4)
+mod gr_glue { include!(concat!(env!("VERIF_HX_DIR"), "/daemon/event_gr_hx.rs")); }
